@@ -17,6 +17,11 @@ extern "C" {
 #define JSONCONS_ASSERT(x) if (!(x)) { irc_assert_fail(#x); }
 #undef JSONCONS_UNREACHABLE
 #define JSONCONS_UNREACHABLE() irc_unreachable_hit()
+// Raw, zeroed, correctly TYPED storage for an object whose constructor/destructor we do not want to run (DESIGN 2.1).
+// A union member keeps the LLVM type of the storage equal to the class, so the generated C stays field-sensitive for CBMC.
+template <class T> union rawobj_u { T obj; char c; rawobj_u() : c(0) {} ~rawobj_u() {} };
+#define RAWSTORE(T, name) rawobj_u<T> name##_u; __builtin_memset((void*)&name##_u, 0, sizeof(name##_u)); void* name = (void*)&name##_u
+#define RAWOBJ(T, name) rawobj_u<T> name##_u; __builtin_memset((void*)&name##_u, 0, sizeof(name##_u)); T* name = &name##_u.obj
 #define KFN extern "C" __attribute__((noinline))
 // fixed-array sink usable wherever the library is templated on Sink/Result/Container (push_back/append)
 struct fsink {
@@ -31,6 +36,7 @@ struct bsink {
     typedef unsigned char value_type;
     unsigned char* p; unsigned long n; unsigned long cap;
     void push_back(unsigned char c) { if (n < cap) p[n] = c; n++; }
+    void append(const unsigned char* s, unsigned long len) { for (unsigned long i = 0; i < len; ++i) push_back(s[i]); }
     void flush() {}
 };
 #endif
